@@ -1047,6 +1047,34 @@ def run(ctx):
                      {"desc": d, "cfg": cfg, "stage": st, "error": status, "n_such_runs": len(unexpected_errors)},
                      "c08:stage-raised"))
 
+    # ---- the damage stage alone: more workers than tubes, lives in all three regimes ----------------
+    # (synthetic solved receivers of 1-2 tubes; the pipelines above have 4 tubes and at most 4 workers in the quick tier,
+    # so a worker without a tube, and an unbounded or zero life coming back from a pool, would never be seen)
+    import random as _random
+    import damage_common as dc
+    lrng = _random.Random(7919 + ctx.seed)
+    for regime in dc.REGIMES:
+        for ntubes in ((1, 2) if ctx.quick() else (1, 2, 3)):
+            lcase = dc.gen_case(lrng, regime=regime, ntubes=ntubes, mode=lrng.choice(["lump", "last"]))
+            ref_life = dc.real_life(lcase, nthreads=1)
+            for _try in range(8):
+                # the regimes of the generator are approximate: insist on a really unbounded / zero life
+                if regime == "crossing" or ref_life == ("ok", regime):
+                    break
+                lcase = dc.gen_case(lrng, regime=regime, ntubes=ntubes, mode=lcase["mode"])
+                ref_life = dc.real_life(lcase, nthreads=1)
+            for n in ((ntubes + 1, 8) if ctx.quick() else (2, 3, 4, 5, 8, 16)):
+                got = dc.real_life(lcase, nthreads=n)
+                n_compared += 1
+                same = got == ref_life
+                ctx.case(("life-sweep", regime, ntubes, n), nontrivial=n > ntubes,
+                         tag="damage stage alone/%s/%d tubes/%s" % (regime, ntubes, "ok" if same else "DIFFERS"))
+                stage_table["life-sweep/%s/%d tubes/nthreads=%d" % (regime, ntubes, n)] = "ok" if same else "differs"
+                if not same:
+                    viol.append(("determine_life on a solved receiver of %d tube(s) (%s, regime %s): nthreads=%d gives %r, "
+                                 "nthreads=1 gives %r" % (ntubes, lcase["material"], regime, n, got, ref_life),
+                                 {"life_sweep": dc.case_to_json(lcase), "nthreads": n}, "c08:differs:life-sweep"))
+
     # ---- dispatch decision on many option assignments (real solve, stub tubes) ---------------------
     rng = ctx.rng
     nprobe = 40 if ctx.quick() else 200
@@ -1190,6 +1218,13 @@ def replay(obj):
         print(F24_MINIMAL)
         print("-> results['temperature'] is a %s; outcome: %s" % (kind, ("%s: %s" % res) if res else "works"))
         return 1 if res else 0
+    if r.get("life_sweep"):
+        import damage_common as dc
+        lcase = dc.case_from_json(r["life_sweep"])
+        a, b = dc.real_life(lcase, nthreads=1), dc.real_life(lcase, nthreads=r["nthreads"])
+        print("determine_life nthreads=1 ->", a, "; nthreads=%d ->" % r["nthreads"], b)
+        print("property holds on this input" if a == b else "property violated on this input")
+        return 0 if a == b else 1
     if r.get("rj"):
         ref = run_pipeline(r["desc"], {"nthreads": 1, "progress": False, "page": False}, reference=True)
         bad, info = rj_check(r["desc"], ref["snaps"]["thermal"], r["nthreads"], r["seed"])
